@@ -130,7 +130,7 @@ impl LineServer {
             // circuit breaker: a tree on which (nearly) every case hangs or kills the worker would
             // otherwise take cases x timeout; what has been seen by then is reported, the rest of
             // the batch is left unevaluated (the caller records how many)
-            if self.hangs as u64 * timeout.as_secs().max(1) * 11 >= 600 || self.deaths >= 3000 {
+            if self.hangs as u64 * timeout.as_secs().max(1) * 6 >= 600 || self.deaths >= 3000 {
                 break;
             }
             if self.child.is_none() {
@@ -179,10 +179,10 @@ impl LineServer {
                 self.stdin = w;
             }
             // a reply that did not arrive in time is a hang only if the request, asked again on its own
-            // in a fresh process with ten times the time, still does not answer: a loaded machine (or a
+            // in a fresh process with five times the time, still does not answer: a loaded machine (or a
             // slow external oracle) must not be reported as a hang of the implementation
             if let Some(line) = retry.take() {
-                match self.ask(&line, timeout * 10) {
+                match self.ask(&line, timeout * 5) {
                     Reply::Line(l) => {
                         self.slow += 1;
                         out.push(Reply::Line(l));
